@@ -3,8 +3,8 @@ import itertools
 import random
 
 SCHEMES = ["", "http", "https", "ws", "wss", "ftp", "file", "svn", "x", "mailto", "HTTP", "git+ssh"]
-USERS = [None, "", "u", "u%40x", "ü", "U s", "a:b"[:1], "%41"]
-PASSWORDS = [None, "", "p", "p%3Aq", "p:q", "p@q"[:1], "é"]
+USERS = [None, "", "u", "u%40x", "ü", "U s", "a:b"[:1], "%41", "p%FFq", "x%E2%82", "%c3%a9%2f"]
+PASSWORDS = [None, "", "p", "p%3Aq", "p:q", "p@q"[:1], "é", "%FF", "%F0%9F%98", "%3a%40"]
 HOSTS = [None, "", "example.com", "EXAMPLE.Com", "bücher.example", "Ab_c.é.com", "1.2.3.4", "[::1]",
          "[2001:DB8:0:0:0:0:0:1]", "[fe80::1%25eth0]", "[v1.fe:80]", "example.com.", "xn--bcher-kva.example", "a_b",
          "[::ffff:1.2.3.4]", "localhost", "a%41b.com", "[1:0:0:2:0:0:0:3]"]
